@@ -916,7 +916,8 @@ example :
 
 /-- What a handler looks like right after its own callback. -/
 def Noticed (p : ProxyS) : Prop :=
-  Settled p ∧ (p.sw.shutW = true → p.mw.shutW = true → p.sw.buf = [] → p.mw.buf = [] → p.ok = false)
+  (Settled p ∧ (p.sw.shutW = true → p.mw.shutW = true → p.sw.buf = [] → p.mw.buf = [] → p.ok = false)) ∧
+  EofUp p.sw p.mw ∧ EofDown p.sw p.mw
 
 theorem cb_noticed (w : World) (e : End) (i : Nat) (io : CbIo) (hd : (w.stepRaw (.cb e i io)).died = none)
     (hd0 : w.died = none) (f : Flow) (p : ProxyS) (hf : (w.stepRaw (.cb e i io)).flows[i]? = some f)
@@ -939,7 +940,7 @@ theorem cb_noticed (w : World) (e : End) (i : Nat) (io : CbIo) (hd : (w.stepRaw 
         subst hf
         simp only [Option.some.injEq] at hp
         subst hp
-        exact callback_settled p0 w.cm f0.app io _ m' e' hcb
+        exact ⟨callback_settled p0 w.cm f0.app io _ m' e' hcb, callback_eof_post p0 w.cm f0.app io _ m' e' hcb⟩
   | server =>
     simp only [World.stepRaw, World.cbS, hf0] at hd hf
     simp only [handlerAt] at hh0 hp
@@ -956,7 +957,7 @@ theorem cb_noticed (w : World) (e : End) (i : Nat) (io : CbIo) (hd : (w.stepRaw 
         subst hf
         simp only [Option.some.injEq] at hp
         subst hp
-        exact callback_settled p0 w.sm f0.dst io _ m' e' hcb
+        exact ⟨callback_settled p0 w.sm f0.dst io _ m' e' hcb, callback_eof_post p0 w.sm f0.dst io _ m' e' hcb⟩
 
 theorem step_died_none {w : World} {st : Step} (h : (w.step st).died = none) :
     w.died = none ∧ w.step st = w.stepRaw st := by
@@ -1016,6 +1017,52 @@ theorem C02_pass_notices_finished (w : World) (e : End) (ios : Nat → CbIo) (k 
     · have hunch := (C08_step_frame (w.run (passCallbacks e ios k)) e k (ios k)).1 i hik
       rw [hunch] at hf
       exact ih hd0 i (by omega) f p hf hp
+
+/-- **End-of-stream is passed on by the callback that can pass it on.**  After every
+`Proxy.callback`, whatever the sockets did: if the socket side has stopped reading and nothing is
+buffered for the tunnel, the EOF frame has been queued (`mw.shutW`); and if the tunnel side has
+finished and nothing is buffered for the socket, the socket's write side has been shut.  (A
+`copy_to` that leaves this to "the next callback" leaves it to a callback nobody has asked for.) -/
+theorem C02_eof_passed_on_in_callback (p : ProxyS) (m : MuxL) (e : ESock) (io : CbIo)
+    (p' : ProxyS) (m' : MuxL) (e' : ESock) (h : p.callback m e io = .ok p' m' e') :
+    (p'.sw.shutR = true → p'.sw.buf = [] → p'.mw.shutW = true) ∧
+    (p'.mw.shutR = true → p'.mw.buf = [] → p'.sw.shutW = true) :=
+  callback_eof_post p m e io p' m' e' h
+
+/-- **A handler that has just had its callback and asks `select` for nothing has nothing left to
+do.**  `Noticed` is what every callback leaves behind (flags propagated, every end-of-stream passed
+on, completion noticed); if such a handler registers no descriptor for the next `select` and the
+tunnel is not paused, then it is not connecting, both its buffers are empty, it has stopped reading
+and everything has been passed on — whatever is still to come for this flow must come from outside
+(the endpoint or the peer), and the loop will be woken for it.  No wake-up is lost between a
+callback and the next `select`. -/
+theorem C02_idle_handler_is_quiet (p : ProxyS) (m : MuxL) (e : ESock) (hn : Noticed p)
+    (hw : p.wants m = (false, false, false)) (ht : m.tooFull = false) : HQ (some p) e := by
+  obtain ⟨⟨⟨s1, s2⟩, _⟩, up, down⟩ := hn
+  obtain ⟨a1, a3, hr, hb⟩ := C02_nothing_wanted_nothing_possible p m hw
+  have hsb : p.sw.buf = [] := by
+    cases hbb : p.sw.buf with
+    | nil => rfl
+    | cons a l =>
+      have := hb (by rw [hbb]; exact List.cons_ne_nil _ _)
+      rw [ht] at this; cases this
+  have hsr : p.sw.shutR = true := hr hsb
+  intro q hq
+  injection hq with hq; subst hq
+  refine ⟨a1, by rw [hsb]; rfl, by rw [a3]; rfl, ?_, ?_, ?_, s1, s2⟩
+  · intro h; rw [hsr] at h; cases h
+  · intro _; exact up hsr hsb
+  · intro h; exact down h a3
+
+/-- The loop-level form: after a pass in which every handler of an end got its callback (what
+`runonce` does whenever the tunnel's read file is ready), a handler of that end that asks the next
+`select` for nothing is quiet. -/
+theorem C02_pass_leaves_nothing_unasked (w : World) (e : End) (ios : Nat → CbIo) (k : Nat)
+    (hd : (w.run (passCallbacks e ios k)).died = none) (i : Nat) (hi : i < k) (f : Flow) (p : ProxyS)
+    (hf : (w.run (passCallbacks e ios k)).flows[i]? = some f) (hp : handlerAt e f = some p)
+    (m : MuxL) (hw : p.wants m = (false, false, false)) (ht : m.tooFull = false) (es : ESock) :
+    HQ (some p) es :=
+  C02_idle_handler_is_quiet p m es (C02_pass_notices_finished w e ios k hd i hi f p hf hp) hw ht
 
 def demo4 : List Step :=
   [.accept, .deliver .server .ok, .deliver .server .ok, .dstEof 0,
